@@ -22,7 +22,8 @@ RULE = ("histories through the public cesium API: 1-3 index channels x 0-3 data 
         "groups that do not write their index, zero-length samples on string/json channels (preferably last in a frame/domain), "
         "Reopen; 10% with one illegal step; 15% with one scripted short write (a data-file Write stores a prefix and fails) "
         "followed by the remaining sessions on the same files; DB.Read of 1-3 channels interleaved with "
-        "the history (also while a writer holds uncommitted data) and 4-10 final reads repeated after Close+Open; range ends "
+        "the history (also while a writer holds uncommitted data) and 4-10 final reads repeated after Close+Open; one final read per "
+        "case is repeated through an iterator opened on a narrow range elsewhere and re-targeted with SetBounds (must equal DB.Read); range ends "
         "from sample stamps, +-1, writer starts, 0, MAX. Non-trivial = >=2 committed sessions or a rollover-size cap, and a "
         "read whose range end lies strictly between two returned/stored samples or that returns >=2 series; distinct by hash.")
 TRUSTED = ["harness package verifh/cesh: sample value <-> bytes bijection per data type (garbled bytes are reported as a value no "
@@ -104,7 +105,14 @@ def gen_case(rng, tier):
         for _ in range(rng.randrange(1, 4)):
             ops.append(gen_read(rng, {"channels": setup["channels"]}, pos, edges))
     final = [gen_read(rng, {"channels": setup["channels"]}, pos, edges) for _ in range(rng.randrange(4, 11))]
-    return {"setup": setup, "ops": ops, "final": final}
+    case = {"setup": setup, "ops": ops, "final": final}
+    # iterator reuse: one final read is repeated through an iterator opened on a narrow range
+    # elsewhere and re-targeted with SetBounds; it must return what DB.Read returns
+    cand = [i for i, o in enumerate(final) if o["tr"][0] <= o["tr"][1]]
+    if cand:
+        a = rng.choice(pos)
+        case["rebound"] = {"i": rng.choice(cand), "open": [a, min(MAXTS, a + rng.choice([0, 1, 2, 10, 1000]))]}
+    return case
 
 
 def gen_cases(rng, tier, n):
@@ -121,6 +129,26 @@ def harness_violation(case, r):
             if o.get("late") is not None:
                 return ("the frame returned by DB.Read #%d (%s) no longer carries what it carried when it was returned: "
                         "then %s, at the end of the case %s" % (n, sect, json.dumps(o.get("read"))[:200], json.dumps(o["late"])[:200]))
+    return rebound_violation(case, r)
+
+
+def rebound_violation(case, r):
+    rb = case.get("rebound")
+    if not rb:
+        return None
+    for sect, key in (("final_a", "reb_a"), ("final_b", "reb_b")):
+        x = r.get(key)
+        fin = r.get(sect) or []
+        if x is None or rb["i"] >= len(fin):
+            continue
+        ref = fin[rb["i"]]
+        if ref["err"] != 0:
+            continue
+        if x["err"] != 0 or x.get("read") != ref.get("read"):
+            return ("two read paths disagree (%s): an iterator opened on %s and re-targeted with SetBounds(%s) returns %s "
+                    "(err %d), DB.Read of the same range and channels returns %s" % (
+                        sect, rb["open"], case["final"][rb["i"]]["tr"], json.dumps(x.get("read"))[:300], x["err"],
+                        json.dumps(ref.get("read"))[:300]))
     return None
 
 
@@ -180,6 +208,9 @@ def histogram(case, r):
         ks.append("read_keys=%d" % len(o["keys"]))
     for c in case["setup"]["channels"]:
         ks.append("dt=" + c["dt"])
+    if r.get("reb_a") is not None:
+        ks.append("rebound_iterator_read_with_data" if any(cr["ser"] for cr in r["reb_a"].get("read") or [])
+                  else "rebound_iterator_read_empty")
     return ks
 
 
